@@ -93,9 +93,14 @@ func (vc *FuncVC) Verify() (err error) {
 		for _, c := range sp.Requires {
 			st.assume(e2.asBool(e2.tr(c.E)))
 		}
+		for _, c := range sp.Assumes {
+			st.assume(e2.asBool(e2.tr(c.E)))
+			vc.trusted["assumed: "+shortName(sp.Key)+": "+c.Name+": "+c.Src] = true
+		}
 	}
 	vc.entry = st.snapshot()
 	vc.entry.pc = nil
+	vc.subtypeObligations(st, fr)
 	// vacuity: the precondition must be satisfiable
 	vc.emitCover(st, "cover.pre", "precondition and axioms are satisfiable", fn.Pos())
 	fr.retK = func(st *State, res []Value) { vc.atExit(st, fr, res) }
@@ -143,6 +148,15 @@ func (vc *FuncVC) rebind(env *Env, sp *FuncSpec, fr *frame, res []Value) *Env {
 		name := p.Name()
 		if i < len(names) {
 			name = names[i]
+		}
+		if i == 0 && sp.Kind == "interface" && fn.Signature.Recv() != nil {
+			// the interface contract sees the receiver as an interface value of the implementing type
+			if it := vc.ifaceTypeOf(sp); it != nil {
+				if t, ok := fr.regs[p].(Term); ok && t.Sort == SRef {
+					n.vars[name] = TV{T: vc.mkIface(IntLit(int64(vc.w.TagOf(p.Type()))), t), Go: it}
+					continue
+				}
+			}
 		}
 		n.vars[name] = n.valueTV(fr.regs[p], p.Type())
 	}
@@ -203,7 +217,7 @@ func (vc *FuncVC) atExit(st *State, fr *frame, res []Value) {
 			}
 		}
 	}
-	vc.frameObligations(st, fr, exitNo)
+	vc.frameObligations(st, fmt.Sprintf("exit%d", exitNo))
 	if exitNo <= 8 {
 		vc.emitCover(st, fmt.Sprintf("canary.exit%d", exitNo), "exit is reachable (assert false must not be provable)", pos)
 	}
@@ -259,20 +273,30 @@ func topConjuncts(t Term) []Term {
 	return out
 }
 
-// frameObligations: every heap changed on this path must be covered by a modifies clause.
-func (vc *FuncVC) frameObligations(st *State, fr *frame, exitNo int) {
+// frameGoal is the statement that one heap changed only where the verified function's modifies clause allows.
+type frameGoal struct {
+	heap string
+	goal Term
+}
+
+// frameGoals computes, for every heap whose current version differs from the entry version, the frame condition.
+func (vc *FuncVC) frameGoals(st *State) []frameGoal {
 	type modInfo struct {
 		whole bool
 		ats   []Term
 	}
+	top := st.fr
+	for top.parent != nil {
+		top = top.parent
+	}
 	mods := map[string]*modInfo{}
 	modAll := false
-	env := vc.specEnv(vc.entry, vc.entry, fr, nil)
+	env := vc.specEnv(vc.entry, vc.entry, top, nil)
 	for _, sp := range vc.specChain(vc.spec) {
 		if sp.ModAll {
 			modAll = true
 		}
-		e2 := vc.rebind(env, sp, fr, nil)
+		e2 := vc.rebind(env, sp, top, nil)
 		for _, m := range sp.Modifies {
 			for _, mt := range e2.modTargets(m) {
 				mi := mods[mt.name]
@@ -289,8 +313,9 @@ func (vc *FuncVC) frameObligations(st *State, fr *frame, exitNo int) {
 		}
 	}
 	if modAll {
-		return
+		return nil
 	}
+	var out []frameGoal
 	for _, name := range sortedKeys(st.heaps) {
 		cur := st.heaps[name]
 		init, ok := vc.entry.heaps[name]
@@ -300,12 +325,8 @@ func (vc *FuncVC) frameObligations(st *State, fr *frame, exitNo int) {
 		if cur.S == init.S {
 			continue
 		}
-		if strings.HasPrefix(name, "iter.") || strings.HasPrefix(name, "cell.") || strings.HasPrefix(name, "box.") {
-			// local cells/boxes/iterators: cells allocated by this function are invisible to the caller;
-			// cells of the caller are only reachable through pointer parameters, handled below
-			if !strings.HasPrefix(name, "cell.") {
-				continue
-			}
+		if strings.HasPrefix(name, "iter.") {
+			continue
 		}
 		mi := mods[name]
 		if mi != nil && mi.whole {
@@ -326,9 +347,17 @@ func (vc *FuncVC) frameObligations(st *State, fr *frame, exitNo int) {
 				guard = append(guard, Select(vc.entry.alloc, r))
 			}
 			body := Implies(And(guard...), Eq(Select(cur, r), Select(init, r)))
-			goal = Term{fmt.Sprintf("(forall ((r!frame Ref)) %s)", body.S), SBool}
+			goal = Term{fmt.Sprintf("(forall ((r!frame Ref)) (! %s :pattern ((select %s r!frame))))", body.S, cur.S), SBool}
 		}
-		vc.emit(st, fmt.Sprintf("frame.%s@exit%d", shortName(name), exitNo), "frame", nil, goal, "heap "+shortName(name)+" is unchanged except where the contract's modifies clause allows", fr.fn.Pos())
+		out = append(out, frameGoal{name, goal})
+	}
+	return out
+}
+
+// frameObligations: every heap changed on this path must be covered by a modifies clause.
+func (vc *FuncVC) frameObligations(st *State, where string) {
+	for _, fg := range vc.frameGoals(st) {
+		vc.emit(st, vc.uniqueName(fmt.Sprintf("frame.%s@%s", shortName(fg.heap), where)), "frame", nil, fg.goal, "heap "+shortName(fg.heap)+" is unchanged except where the contract's modifies clause allows", vc.fn.Pos())
 	}
 }
 
@@ -346,6 +375,7 @@ func (vc *FuncVC) execBlock(st *State, b *ssa.BasicBlock, prev *ssa.BasicBlock) 
 			// back edge: the invariant must be re-established
 			vc.evalPhis(st, b, prev)
 			vc.checkInvariant(st, li, "keep", ol)
+			vc.frameObligations(st, fmt.Sprintf("loop%d", li.ordinal))
 			panic(pathEnd{})
 		}
 		// loop entry
@@ -523,6 +553,10 @@ func (vc *FuncVC) havocLoop(st *State, li *loopInfo) {
 	}
 	if li.mods["$alloc"] || li.mods["*"] {
 		vc.havocAlloc(st)
+	}
+	// the function's frame is an implicit loop invariant (checked at every back edge and exit)
+	for _, fg := range vc.frameGoals(st) {
+		st.assume(fg.goal)
 	}
 	fr.open[li.header] = &openLoop{}
 }
@@ -1281,12 +1315,12 @@ func (vc *FuncVC) makeIface(st *State, v Value, t types.Type) Term {
 	tag := IntLit(int64(vc.w.TagOf(t)))
 	switch vc.sortOf(t) {
 	case SRef:
-		return MkIface(tag, vc.valTerm(st, v))
+		return vc.mkIface(tag, vc.valTerm(st, v))
 	case "":
 		// struct value: box with one leaf heap per field
 		r := vc.allocate(st, "box")
 		vc.storeAt(st, PtrVal{Base: r, Path: "box." + typeKey(t), T: t}, v)
-		return MkIface(tag, r)
+		return vc.mkIface(tag, r)
 	}
 	r := vc.allocate(st, "box")
 	name := "box." + typeKey(t)
@@ -1296,7 +1330,7 @@ func (vc *FuncVC) makeIface(st *State, v Value, t types.Type) Term {
 	nh := vc.fresh(st, "H."+name, hs)
 	st.assume(Eq(nh, Store(h, r, val)))
 	st.setHeap(name, nh)
-	return MkIface(tag, r)
+	return vc.mkIface(tag, r)
 }
 
 // implementsIface: does the dynamic type of interface value v implement iface?
@@ -1535,4 +1569,82 @@ func (vc *FuncVC) execNext(st *State, x *ssa.Next) Value {
 		vc.assumeTyped(st, k, mt.Key())
 	}
 	return TupleVal{ok, k, val}
+}
+
+// ifaceTypeOf returns the interface type an interface-method contract "(pkg.T).M" belongs to.
+func (vc *FuncVC) ifaceTypeOf(sp *FuncSpec) types.Type {
+	k := sp.Key
+	if !strings.HasPrefix(k, "(") {
+		return nil
+	}
+	end := strings.Index(k, ")")
+	return vc.w.LookupType(k[1:end], vc.w.typPkgs[sp.Pkg])
+}
+
+// subtypeObligations: a method that inherits an interface contract must accept every call the interface allows
+// (its own preconditions follow from the interface's) and may modify only what the interface contract declares.
+func (vc *FuncVC) subtypeObligations(st *State, fr *frame) {
+	chain := vc.specChain(vc.spec)
+	if len(chain) < 2 {
+		return
+	}
+	own := chain[0]
+	// 1. preconditions: assume only the inherited requires, prove the own ones
+	st2 := &State{heaps: map[string]Term{}, alloc: vc.entry.alloc, fr: fr, ndecls: st.ndecls}
+	for k, v := range vc.entry.heaps {
+		st2.heaps[k] = v
+	}
+	// type invariants of the parameters are part of any call
+	for _, a := range st.pc {
+		if !strings.Contains(a.S, "forall") && len(a.S) < 400 {
+			st2.pc = append(st2.pc, a)
+		} else {
+			break
+		}
+	}
+	env := vc.specEnv(st2, vc.entry, fr, nil)
+	for _, sp := range chain[1:] {
+		e2 := vc.rebind(env, sp, fr, nil)
+		for _, c := range sp.Requires {
+			st2.assume(e2.asBool(e2.tr(c.E)))
+		}
+	}
+	e1 := vc.rebind(env, own, fr, nil)
+	for i, c := range own.Requires {
+		name := c.Name
+		if name == "" {
+			name = fmt.Sprintf("%d", i+1)
+		}
+		goal := e1.asBool(e1.tr(c.E))
+		for _, g := range splitConj(goal, c.E, e1) {
+			vc.emit(st2, vc.uniqueName("subtype.pre#"+name+g.suffix), "subtype", c.Tags, g.t, "the implementation's precondition follows from the interface contract: "+c.Src, fr.fn.Pos())
+		}
+	}
+	// 2. modifies: heap names of the own clauses must be covered by whole-heap entries of the inherited contracts
+	allowed := map[string]bool{}
+	allowAll := false
+	for _, sp := range chain[1:] {
+		if sp.ModAll {
+			allowAll = true
+		}
+		e2 := vc.rebind(env, sp, fr, nil)
+		for _, m := range sp.Modifies {
+			for _, mt := range e2.modTargets(m) {
+				if mt.base == nil {
+					allowed[mt.name] = true
+				}
+			}
+		}
+	}
+	if !allowAll {
+		for _, m := range own.Modifies {
+			for _, mt := range e1.modTargets(m) {
+				goal := tFalse
+				if allowed[mt.name] {
+					goal = tTrue
+				}
+				vc.emit(st2, vc.uniqueName("subtype.modifies."+shortName(mt.name)), "subtype", nil, goal, "heap "+shortName(mt.name)+" modified by the implementation is declared by the interface contract", fr.fn.Pos())
+			}
+		}
+	}
 }
